@@ -24,7 +24,7 @@ type c17 struct{}
 
 func init() {
 	register(c17{})
-	expectedProbes["C17"] = []string{"mix:distinct-roots", "mix:own-cache", "mix:shared-hcache", "mix:shared-libcache", "mix:shared-readonly-doc", "mix:first-use", "lock-contended", "context-switches>10",
+	expectedProbes["C17"] = []string{"mix:distinct-roots", "mix:own-cache", "mix:shared-hcache", "mix:shared-libcache", "mix:shared-readonly-doc", "mix:first-use", "mix:shared-root-context", "lock-contended", "context-switches>10",
 		"policy:random", "policy:pct", "history-checked-linearizable", "schema-id-registered-in-shared-cache", "tasks>=4", "ref-to-built-in-meta-schema", "per-task-documents-at-the-same-urls"}
 }
 
@@ -49,7 +49,7 @@ func (c17) Gen(r *sim.RNG, tier string, idx int) *Scenario {
 	if cfg.NDocs > 3 {
 		cfg.NDocs = 3
 	}
-	sc.Mix = []string{"distinct-roots", "own-cache", "shared-hcache", "shared-libcache", "shared-libcache", "shared-readonly-doc", "first-use"}[r.Intn(7)]
+	sc.Mix = []string{"distinct-roots", "own-cache", "shared-hcache", "shared-libcache", "shared-libcache", "shared-readonly-doc", "first-use", "shared-root-context"}[r.Intn(8)]
 	if strings.HasPrefix(sc.Mix, "shared-") && sc.Mix != "shared-readonly-doc" {
 		cfg.WholeDoc = true
 		cfg.SelfIDs = r.Bool(0.6)
@@ -114,6 +114,22 @@ func (c17) Gen(r *sim.RNG, tier string, idx int) *Scenario {
 				} else {
 					op = c[r.Intn(len(c))]
 					op.Cache = "shared"
+				}
+			case "shared-root-context":
+				// ONE root document, decoded once, is the read-only context of every task's calls
+				// (what go-openapi/validate does); some tasks encode it meanwhile
+				var c []Op
+				for _, e := range els {
+					if strings.HasSuffix(e.Entry, "WithRoot") || e.Entry == "ExpandSchema" {
+						c = append(c, e)
+					}
+				}
+				if len(c) == 0 || r.Intn(4) == 0 {
+					op = Op{Entry: "Marshal"}
+				} else {
+					op = c[r.Intn(len(c))]
+					op.Root = []string{"shared-typed", "shared-typed", "shared-generic"}[r.Intn(3)]
+					op.Cache = []string{"nil", "fresh", "lib"}[r.Intn(3)]
 				}
 			case "shared-readonly-doc":
 				if r.Bool(0.5) {
@@ -295,7 +311,13 @@ func (c17) Run(sc *Scenario) *Verdict {
 		stores[i+1] = sim.NewStore(wt.Docs, sc.Faults)
 		v.probe("per-task-documents-at-the-same-urls")
 	}
-	sharedDoc, _ := DecodeRoot(w)
+	var sharedDoc *spec.Swagger
+	var sharedGeneric interface{}
+	if sc.Mix == "shared-readonly-doc" || sc.Mix == "shared-root-context" {
+		// (not in the first-use mix: nothing of the package may run before the tasks there)
+		sharedDoc, _ = DecodeRoot(w)
+		sharedGeneric = model.CloneJSON(w.Docs[w.Root])
+	}
 	withReq := sc.Mix == "distinct-roots" || sc.Mix == "own-cache" || sc.Mix == "first-use"
 
 	exec := func(op Op, sched bool, shared spec.ResolutionCache) taskResult {
@@ -343,7 +365,7 @@ func (c17) Run(sc *Scenario) *Verdict {
 				ew, es = wt, stores[op.World]
 			}
 		}
-		env := &Env{World: ew, Store: es, OrderKey: key, Budget: StepBudgetDefault, Sched: sched, Cache: shared}
+		env := &Env{World: ew, Store: es, OrderKey: key, Budget: StepBudgetDefault, Sched: sched, Cache: shared, SharedTyped: sharedDoc, SharedGeneric: sharedGeneric}
 		return digestOf(ExecOp(op, env), withReq)
 	}
 	newShared := func() (spec.ResolutionCache, *recCache) {
